@@ -203,3 +203,34 @@ pub fn dump(p: &str, scratch: &str) -> String {
     let items: Vec<&str> = d.entries.iter().map(|(_, t)| t.as_str()).collect();
     format!("ok {}", items.join(";"))
 }
+
+/// `fsize N|-`: set (or lift) the soft RLIMIT_FSIZE of this process, SIGXFSZ ignored: a write that would
+/// grow a file beyond N bytes is cut short at N, the next one fails with EFBIG.  (The hard limit is left
+/// alone, so the limit can be lifted again: a fault that goes away while a handle is still open.)
+pub fn fsize(limit: Option<u64>) -> String {
+    #[repr(C)]
+    struct Rlimit {
+        cur: u64,
+        max: u64,
+    }
+    extern "C" {
+        fn getrlimit(resource: i32, rlim: *mut Rlimit) -> i32;
+        fn setrlimit(resource: i32, rlim: *const Rlimit) -> i32;
+        fn signal(signum: i32, handler: usize) -> usize;
+    }
+    const RLIMIT_FSIZE: i32 = 1;
+    const SIGXFSZ: i32 = 25;
+    const SIG_IGN: usize = 1;
+    let mut rl = Rlimit { cur: 0, max: 0 };
+    unsafe {
+        signal(SIGXFSZ, SIG_IGN);
+        if getrlimit(RLIMIT_FSIZE, &mut rl) != 0 {
+            return "err io other".to_string();
+        }
+        rl.cur = limit.unwrap_or(rl.max).min(rl.max);
+        if setrlimit(RLIMIT_FSIZE, &rl) != 0 {
+            return "err io other".to_string();
+        }
+    }
+    "ok".to_string()
+}
